@@ -18,6 +18,9 @@ pub enum Cfg {
     /// two flow throttling rules on ONE resource (rates a and b per `interval_ms`): whatever the order
     /// in which they are evaluated, an admitted caller is released no earlier than the slot of EVERY rule
     Flow2 { rates: [f64; 2], interval_ms: u32, maxq_ms: u32 },
+    /// two hotspot QPS throttling rules on ONE resource (parameter 0 and parameter 1, `qs[k]` per
+    /// second): the same lower-bound oracle as Flow2, per rule
+    Hotspot2 { qs: [u64; 2], maxq_ms: u64 },
     /// hotspot QPS throttling: `q` per `d` seconds per value
     Hotspot { q: u64, d: u64, maxq_ms: u64, overrides: Vec<(String, u64)> },
 }
@@ -62,6 +65,14 @@ impl C07 {
                     g.extend([cost.saturating_sub(1), cost, cost + 1, 3 * cost]);
                 }
                 g.push(*maxq_ms as u64 * 1_000_000);
+                g
+            }
+            Cfg::Hotspot2 { qs, maxq_ms } => {
+                let mut g = vec![0, 1, *maxq_ms];
+                for q in qs {
+                    let cost = (1000f64 / *q as f64).round() as u64;
+                    g.extend([cost.saturating_sub(1), cost, cost + 1, 3 * cost]);
+                }
                 g
             }
             Cfg::Hotspot { q, d, maxq_ms, .. } => {
@@ -125,6 +136,26 @@ impl Subject for C07 {
                         .collect(),
                 );
             }
+            Cfg::Hotspot2 { qs, maxq_ms } => {
+                hotspot::load_rules(
+                    qs.iter()
+                        .enumerate()
+                        .map(|(i, q)| {
+                            Arc::new(hotspot::Rule {
+                                id: format!("h{}", i),
+                                resource: RES.into(),
+                                metric_type: hotspot::MetricType::QPS,
+                                control_strategy: hotspot::ControlStrategy::Throttling,
+                                param_index: i as isize,
+                                threshold: *q,
+                                duration_in_sec: 1,
+                                max_queueing_time_ms: *maxq_ms,
+                                ..Default::default()
+                            })
+                        })
+                        .collect(),
+                );
+            }
             Cfg::Hotspot { q, d, maxq_ms, overrides } => {
                 hotspot::load_rules(vec![Arc::new(hotspot::Rule {
                     id: "h0".into(),
@@ -144,6 +175,13 @@ impl Subject for C07 {
     fn enabled(&self) -> Vec<Op> {
         let mut v = vec![];
         let hot = matches!(self.cfg, Cfg::Hotspot { .. });
+        if let Cfg::Hotspot2 { .. } = self.cfg {
+            for g in &self.gaps {
+                v.push(Op::Arrive { gap: *g, batch: 1, value: "A", direct: false });
+            }
+            v.push(Op::Arrive { gap: 0, batch: 2, value: "A", direct: false });
+            return v;
+        }
         if let Cfg::Flow2 { .. } = self.cfg {
             for g in &self.gaps {
                 v.push(Op::Arrive { gap: *g, batch: 1, value: "A", direct: false });
@@ -158,7 +196,7 @@ impl Subject for C07 {
         v.push(Op::Arrive { gap: 0, batch: 0, value: "A", direct: false });
         let big = match &self.cfg {
             Cfg::Flow { rate, .. } => rate.ceil() as u32 + 1,
-            Cfg::Hotspot { .. } | Cfg::Flow2 { .. } => 3,
+            Cfg::Hotspot { .. } | Cfg::Flow2 { .. } | Cfg::Hotspot2 { .. } => 3,
         };
         v.push(Op::Arrive { gap: 1, batch: big, value: "A", direct: false });
         v.push(Op::Arrive { gap: 0, batch: 1, value: "A", direct: true });
@@ -326,6 +364,41 @@ impl Subject for C07 {
                     self.rejected += 1;
                 }
             }
+            Cfg::Hotspot2 { qs, .. } => {
+                clock::advance_ms(*gap);
+                let now = clock::get_ms() as i64;
+                let costs: Vec<i64> = qs.iter().map(|q| ((*batch as u64 * 1000) as f64 / *q as f64).round() as i64).collect();
+                let admitted = match build_full(RES, TrafficType::Outbound, *batch, Some(vec!["A".to_string(), "X".to_string()]), None) {
+                    Built::Ok(e) => {
+                        self.keep.push(e);
+                        true
+                    }
+                    Built::Blocked(b, _) => {
+                        if b.block_type != "HotSpotParamFlow" {
+                            return Err(format!("block-type: {}", b.block_type));
+                        }
+                        false
+                    }
+                };
+                let after = (clock::get_ns() / 1_000_000) as i64;
+                let sleeps = clock::take_sleeps();
+                if admitted {
+                    for k in 0..2 {
+                        let slot_lb = if self.lb[k] == 0 { now } else { now.max(self.lb[k] + costs[k]) };
+                        if after < slot_lb {
+                            return Err(format!("released-early: two hotspot throttling rules: build() returned {} ms before the slot of rule h{} (slept {:?} ns; previous slot >= +{} ms, cost {} ms)", slot_lb - after, k, sleeps, self.lb[k] - T0_MS as i64, costs[k]));
+                        }
+                        self.lb[k] = slot_lb;
+                    }
+                    if after > now {
+                        self.queued += 1;
+                    } else {
+                        self.passed += 1;
+                    }
+                } else {
+                    self.rejected += 1;
+                }
+            }
             Cfg::Hotspot { q, d, maxq_ms, overrides } => {
                 clock::advance_ms(*gap);
                 let now = clock::get_ms();
@@ -466,6 +539,12 @@ pub fn configs(thorough: bool) -> Vec<Cfg> {
                 continue;
             }
             v.push(Cfg::Flow2 { rates, interval_ms: 1000, maxq_ms });
+        }
+    }
+    for qs in [[2u64, 1000], [1000, 2], [2, 5], [5, 2]] {
+        v.push(Cfg::Hotspot2 { qs, maxq_ms: 2000 });
+        if thorough {
+            v.push(Cfg::Hotspot2 { qs, maxq_ms: 50 });
         }
     }
     for q in [1u64, 3, 1000, 0] {
